@@ -102,6 +102,14 @@ fn liveness(sc: &Scenario, out: &RunOutput) -> OracleResult {
             res.violations.last_mut().map(|v| v.node = Some(a.node));
         }
     }
+    // A run that was cut (time or attempt cap) while bytes were still arriving at a reader is
+    // slow, not stuck (e.g. a 76-byte transmit buffer over a path with a second of jitter moves
+    // one small segment per round trip): no verdict on what had not arrived yet.
+    let last_progress = h.apps().filter(|(_, a)| matches!((&a.kind, &a.res), (AppKind::Read { .. }, AppRes::Ok(n)) if *n > 0)).map(|(t, _)| t).last();
+    if last_progress.is_some_and(|t| out.t_end.saturating_sub(t) < 120 * crate::hist::SEC) && accts.values().any(|a| a.read < a.written) {
+        res.hit("run_cut_while_still_progressing", true);
+        return res;
+    }
     // everything delivered; nothing parked
     for ((k, wnode), a) in &accts {
         if a.read < a.written {
